@@ -158,6 +158,87 @@ def method_case(job):
     return out
 
 
+REG_ACTIONS = ("plain", "override", "decorator-name", "decorator", "described", "refused-never", "refused-duplicate", "refused-not-abi")
+
+
+def registration_case(job):
+    """A history of registration calls (successful and refused ones the caller catches): the contract returned by compile_program lists
+    exactly the methods the program dispatches on, in registration order, under the names/selectors it dispatches on."""
+    actions, version = job
+    from vf.core import use_repo
+    use_repo()
+    import re
+    import pyteal as pt
+    from pyteal import abi
+    from spec import avm
+    out = {"actions": list(actions), "version": version, "problems": [], "ran": 0}
+    try:
+        router = pt.Router("r", pt.BareCallActions(no_op=pt.OnCompleteAction.create_only(pt.Approve())))
+        expected = []   # signatures the program must dispatch on, in order
+        for i, a in enumerate(actions):
+            ns = {"pt": pt, "abi": abi}
+            exec(compile(f"def m{i}(a: abi.Uint64, *, output: abi.Uint64):\n    return output.set(a.get() + pt.Int({i + 1}))\n", "<c09r>", "exec", dont_inherit=True), ns)
+            fn = ns[f"m{i}"]
+            try:
+                if a == "plain":
+                    router.add_method_handler(pt.ABIReturnSubroutine(fn)); expected.append((f"m{i}(uint64)uint64", i))
+                elif a == "override":
+                    router.add_method_handler(pt.ABIReturnSubroutine(fn), overriding_name=f"renamed{i}"); expected.append((f"renamed{i}(uint64)uint64", i))
+                elif a == "decorator-name":
+                    router.method(fn, name=f"dec{i}"); expected.append((f"dec{i}(uint64)uint64", i))
+                elif a == "decorator":
+                    router.method(fn); expected.append((f"m{i}(uint64)uint64", i))
+                elif a == "described":
+                    router.add_method_handler(pt.ABIReturnSubroutine(fn), description="text"); expected.append((f"m{i}(uint64)uint64", i))
+                elif a == "refused-never":
+                    router.add_method_handler(pt.ABIReturnSubroutine(fn), method_config=pt.MethodConfig())
+                    out["problems"].append("a method that is never executable was accepted")
+                elif a == "refused-duplicate":
+                    if expected:
+                        nm = expected[0][0].split("(")[0]
+                        router.add_method_handler(pt.ABIReturnSubroutine(fn), overriding_name=nm)
+                        out["problems"].append("re-registration of an existing signature was accepted")
+                elif a == "refused-not-abi":
+                    router.add_method_handler(fn)
+                    out["problems"].append("a plain function was accepted by add_method_handler")
+            except pt.TealInputError:
+                if not a.startswith("refused"):
+                    out["problems"].append(f"registration {a} was refused")
+        approval, clear, contract = router.compile_program(version=version)
+        dispatched = re.findall(r'^method "([^"]+)"', approval, flags=re.M)
+        listed = [m.get_signature() for m in contract.methods]
+        want = [s for s, _ in expected]
+        if listed != want:
+            out["problems"].append(f"contract lists {listed}, registered (and dispatched on) {want}")
+        if sorted(set(dispatched)) != sorted(set(want)):
+            out["problems"].append(f"program dispatches on {sorted(set(dispatched))}, registered {want}")
+        import hashlib
+        for m in contract.methods:
+            if m.get_selector() != hashlib.new("sha512_256", m.get_signature().encode()).digest()[:4]:
+                out["problems"].append(f"selector of {m.get_signature()} in the contract is not the hash of its signature")
+        # every listed method is callable through its listed selector and returns its own result
+        for sig, i in expected:
+            sel = hashlib.new("sha512_256", sig.encode()).digest()[:4]
+            me = {"ApplicationArgs": [sel, (5).to_bytes(8, "big")], "OnCompletion": 0, "ApplicationID": 77, "TypeEnum": 6}
+            res = avm.run(approval, avm.Ctx(txn=me, globals={"CurrentApplicationID": 77}))
+            out["ran"] += 1
+            if res.verdict != "approve" or res.logs != [bytes.fromhex("151f7c75") + (5 + i + 1).to_bytes(8, "big")]:
+                out["problems"].append(f"calling {sig} by its selector: {res.verdict} {res.detail} logs {[l.hex() for l in res.logs]}")
+    except Exception as e:
+        out["problems"].append(f"exception {type(e).__name__}: {str(e)[:300]}")
+    return out
+
+
+def registration_jobs(tier):
+    import itertools
+    seqs = [p for n in (1, 2) for p in itertools.product(REG_ACTIONS, repeat=n)]
+    if tier != "quick":
+        seqs += list(itertools.product(REG_ACTIONS, repeat=3))
+    else:
+        seqs += [p for i, p in enumerate(itertools.product(REG_ACTIONS, repeat=3)) if i % 7 == 0]
+    return [(list(p), [6, 8, 10][i % 3]) for i, p in enumerate(seqs)]
+
+
 def run(report: Report, tier, seed):
     from vf.core import use_repo
     use_repo()
@@ -179,8 +260,19 @@ def run(report: Report, tier, seed):
                                   contract="each parameter bound to the caller's ARC-4 value (15th+ packed as a tuple), transaction parameters = preceding group transactions with type enforced, reference parameters via foreign arrays; non-void result logged once as 0x151f7c75 ++ encoding; contract lists the dispatched selector",
                                   bound=f"{n} generated signatures (seed {seed}; 0..20 parameters, ABI / transaction / reference kinds in any position, void and non-void) x versions 6..10",
                                   cases=sum(r["ran"] for r in res), distinct_nontrivial=len(jobs), failures=len(bad)))
-    report.extra["explanation"] = "bounded stand-in over generated method signatures; constants by enumeration"
+    rj = registration_jobs(tier)
+    with ProcessPoolExecutor(max_workers=16) as ex:
+        rr = list(ex.map(registration_case, rj, chunksize=4))
+    rbad = [r for r in rr if r["problems"]]
+    report.bounded.append(Bounded(function="Router.add_method_handler / Router.method / compile_program contract description",
+                                  contract="the contract lists exactly the successfully registered methods, in order, under the signatures the program dispatches on; each is callable through its listed selector; refused registrations leave no trace",
+                                  bound=f"all histories of <= 2 registration actions over {len(REG_ACTIONS)} kinds (plain / overriding name / decorator / described / three refused kinds), {'every 7th' if tier == 'quick' else 'all'} of length 3, versions 6, 8, 10",
+                                  cases=len(rr), distinct_nontrivial=len(rr), failures=len(rbad)))
+    report.extra["explanation"] = "bounded stand-in over generated method signatures and registration histories; constants by enumeration"
     report.settle_refuted(None)
+    for b in rbad[:3]:
+        report.violation(Violation(key=f"registration:{b['actions']}", what=f"registration history {b['actions']} v{b['version']}: {b['problems'][0]}"[:400],
+                                   replay={"registration": [b["actions"], b["version"]], "problems": b["problems"][:3]}, confirmed_native=True))
     for b in bad[:3]:
         report.violation(Violation(key=f"method:{b['seed']}:{b['version']}", what=b["problems"][0][:400],
                                    replay={"input": {"seed": b["seed"], "version": b["version"], "big": b["big"]}, "problems": b["problems"][:3], "approval": b.get("approval")},
@@ -188,6 +280,11 @@ def run(report: Report, tier, seed):
 
 
 def replay(data):
+    reg = (data.get("replay") or {}).get("registration")
+    if reg:
+        out = registration_case((reg[0], reg[1]))
+        print(out["problems"][:3])
+        return 1 if out["problems"] else 0
     inp = (data.get("replay") or {}).get("input")
     if not inp:
         return 1
